@@ -564,6 +564,17 @@ pub fn parse_rtcp_packets(raw: &[u8], addr: Option<SocketAddr>) -> RtpResult<Vec
 pub fn marshal_rtcp_packets(packets: &[RtcpPacket]) -> RtpResult<Vec<u8>> {
     let mut out = Vec::new();
     for packet in packets {
+        // The RC / SC field of SR, RR, SDES and BYE is five bits wide (RFC 3550 6.4-6.6).
+        let count = match packet {
+            RtcpPacket::SenderReport(sr) => sr.report_blocks.len(),
+            RtcpPacket::ReceiverReport(rr) => rr.report_blocks.len(),
+            RtcpPacket::SourceDescription(sdes) => sdes.chunks.len(),
+            RtcpPacket::Goodbye(bye) => bye.sources.len(),
+            _ => 0,
+        };
+        if count > 31 {
+            return Err(RtpError::InvalidRtcp("more than 31 entries in an RTCP packet"));
+        }
         match packet {
             RtcpPacket::SenderReport(sr) => write_rtcp_packet(
                 &mut out,
